@@ -3,7 +3,7 @@ Native driver of the C07 (HAB container) model.  One request per line:
 
   build F START IVTOFF ILS ENTRY DCD XMCDFILE APP VER DEK NONCE MACLEN SIGDATA SIGCSF [CMD:DATA]...
         hex tokens ("-" empty, "N" = None); CMD = the command as exported before update_csf, DATA = its data block
-        -> ok:<image hex>;<sha256 msgData>;<sha256 msgCsf>;<attempts>;<signed blocks>;<encrypted blocks>;<wf>
+        -> ok:<image hex>;<sha256 msgData>;<sha256 msgCsf>;<attempts>;<signed blocks>;<encrypted blocks>;shape=std|fast|none;vis=..;rt=..
   parse <image hex>            -> ok:flags,start,ivtoff|name@off=hex|...   or E:spsdk / E:other
   check <image hex> <dek|N>    -> ok:... report of Spec.HabRom.habCheck      or refused:<reason>
   cmd <hex>                    -> ok:<re-encoded hex>:<size>                 or none
@@ -17,6 +17,7 @@ import Driver.Proto
 import SpsdkVerif.Model.Hab
 import SpsdkVerif.Model.HabWF
 import SpsdkVerif.Model.HabDcd
+import SpsdkVerif.Model.HabGen
 import SpsdkVerif.Spec.HabRom
 import SpsdkVerif.Crypto.Exec
 open SpsdkVerif Driver
@@ -98,6 +99,7 @@ def step : List String → String
           "ok:" ++ toHex (exportImage c b) ++ ";" ++ sha b.msgData ++ ";" ++ sha b.msgCsf ++ ";" ++ toString b.attempts
             ++ ";" ++ blocksStr (if isAuth c.flags then c.signedBlocks else []) ++ ";"
             ++ blocksStr (if isEnc c.flags then c.encryptedBlocks else [])
+            ++ ";shape=" ++ (match genShape c with | some (_, true, _) => "fast" | some (_, false, _) => "std" | none => "none")
             ++ ";vis=" ++ boolStr (decide (AppVisible c b.app))
             ++ ";rt=" ++ boolStr (decide (parse (exportImage c b) = .ok (expectedParse c b)))
     | _, _, _, _, _, _, _, _, _, _, _, _, _, _, _ => "bad-op"
